@@ -226,7 +226,7 @@ def conv_gen(g):
         g["data"] = [{"src": s, "tgts": list(t)} for s, t in g["data"]]
     if "rule" in g:
         g["rule"] = norm_rule(g["rule"])
-    if g["kind"] in ("qpages", "qnet"):
+    if g["kind"].startswith("q"):
         g = {"kind": "query"}
     return g
 
